@@ -12,7 +12,7 @@ LEVEL = 'exploration'
 BUDGET = {'quick': 150, 'thorough': 1800}
 CHUNK = 2
 RULE = ('Cases: 2..8 samples (related sequences with substitutions, N, private extra records; disjoint and identical '
-        'samples; a third of the cases with samples realising tables of all 15 ambiguity codes; output prefixes with and without dots) partitioned into 2..4 files in every order, merged flat or nested (merging merged files); the result of '
+        'samples, samples whose k-mers are a strict subset of another sample\'s; a third of the cases with samples realising tables of all 15 ambiguity codes; output prefixes with and without dots) partitioned into 2..4 files in every order, merged flat or nested (merging merged files), a share with the first file given once more as last argument, or with the output overwriting the first / last input; the result of '
         '`ska merge` is compared with one joint `ska build` of the same samples in the merged order (differential) and with '
         'the reference model; the stored merged object is also decoded through the harness (k-mer integers, rows, per-row counts, lengths of the parallel containers) and compared with the model.  k forced at 29/31/33/35 (width boundary) plus random odd k, both strand modes.  Refusal cases: '
         'a file with k+-2 or the opposite strand mode as first and as later argument must give a non-zero exit and leave no '
@@ -21,7 +21,7 @@ RULE = ('Cases: 2..8 samples (related sequences with substitutions, N, private e
 ASSUMPTIONS = ['the joint build is a run of the same binary (differential oracle); the model is the independent one',
                'sample names are s<i> (from file names) or, in a third of the cases, unusual legal names (punctuation, dots, a leading dash, non-ASCII; no white space, which separates the columns of a file list) given through file lists']
 REQUIRED = {t: ['merge:flat', 'merge:nested', 'refuse:k:first', 'refuse:k:later', 'refuse:rc:first', 'refuse:rc:later',
-                'width64', 'width128', 'padded_cells', 'samples_with_all_codes', 'dotted_output_prefix', 'stored_objects_checked', 'unusual_sample_names'] for t in ('quick', 'thorough')}
+                'width64', 'width128', 'padded_cells', 'samples_with_all_codes', 'dotted_output_prefix', 'stored_objects_checked', 'unusual_sample_names', 'subset_samples', 'merge:dup-arg', 'merge:out-is-first-input', 'merge:out-is-last-input'] for t in ('quick', 'thorough')}
 
 
 def builds(tier):
@@ -79,6 +79,15 @@ def run_case(desc, ctx):
     rng = random.Random(desc['seed'])
     ns = rng.randint(2, 8)
     samples = gen_samples(rng, k, ns, codes=desc.get('codes', False) and rcmode)
+    if ns >= 2 and rng.random() < 0.2 and not desc.get('codes'):
+        # a sample whose k-mers are a strict subset of another's (a truncated assembly), sometimes placed in the file merged first
+        i_, j_ = rng.sample(range(ns), 2)
+        big = [r for r in samples[i_] if len(r) >= k]
+        if big:
+            r0 = big[0]
+            samples[j_] = [r0[:rng.randint(k, len(r0))]]
+            subset_pair = (j_, i_)
+            res.count('subset_samples')
     if any(not M.build(r, k, rcmode) for r in samples):
         res.count('degenerate_sample_skipped')
         return res
@@ -110,8 +119,10 @@ def run_case(desc, ctx):
     order = [i for p in parts for i in p]
     res.see('k_rc', '%d/%s' % (k, 'rc' if rcmode else 'ss'))
     res.count('width64' if k <= 31 else 'width128')
+    order0, outname0 = list(order), outname
     for variant in (['rel', 'chk'] if desc.get('chk') else ['rel']):
         b = ctx.bins[variant]
+        order, outname = list(order0), outname0
         pf = []
         ok = True
         for j, pt in enumerate(parts):
@@ -127,6 +138,21 @@ def run_case(desc, ctx):
             if variant == 'rel':
                 res.count('output_file_existed')
         nested = desc['nested'] and len(pf) > 2
+        special = None if nested or desc['seed'] % 4 == 1 else {0: 'dup-arg', 2: 'out-is-first-input', 3: 'out-is-last-input'}.get(desc['seed'] % 16)
+        margs = list(pf)
+        if special == 'dup-arg':
+            # the first file once more as last argument: its samples appear again, as in a build given those sequence files twice
+            margs = pf + [pf[0]]
+            order = order0 + list(parts[0])
+            pj = build_of(ctx.path('joint'), order, b)
+        elif special:
+            # the output overwrites one of the inputs (a collection file that grows)
+            src_ = pf[0] if special == 'out-is-first-input' else pf[-1]
+            outname = os.path.basename(src_)[:-4]
+            if '.' in outname0 and variant == 'rel':
+                res.counters['dotted_output_prefix'] = res.counters.get('dotted_output_prefix', 0)
+        if special and variant == 'rel':
+            res.count('merge:' + special)
         if nested:
             cut = rng.randint(2, len(pf) - 1) if len(pf) > 2 else 2
             p0 = ctx.sh(b, 'merge', *pf[:cut], '-o', ctx.path('m0'))
@@ -134,7 +160,7 @@ def run_case(desc, ctx):
             if p0.returncode != 0:
                 p = p0
         else:
-            p = ctx.sh(b, 'merge', *pf, '-o', ctx.path(outname))
+            p = ctx.sh(b, 'merge', *margs, '-o', ctx.path(outname))
         if variant == 'chk':
             res.count('chk_runs')
             if p.returncode != 0 and 'overflow' in p.stderr:
